@@ -197,6 +197,11 @@ def encode_track(enc, cyl, head, sectors, params=None, size_code=1):
             w.byte(c >> 8)
             w.byte(c & 0xFF)
             w.mark('idcrc', rec, s)
+            if dmark == -1:
+                s = len(w.cells)
+                w.fill(0xFF, p['gap3'])
+                w.mark('gap3', rec, s)
+                continue
             s = len(w.cells)
             w.fill(0xFF, p['gap2'])
             w.fill(0x00, p['sync'])
@@ -252,6 +257,13 @@ def encode_track(enc, cyl, head, sectors, params=None, size_code=1):
         w.byte(c >> 8)
         w.byte(c & 0xFF)
         w.mark('idcrc', rec, s)
+        if dmark == -1:
+            # an ID field whose data field was never written (or was overwritten by the next sector's preamble):
+            # straight on to the gap before the next sector
+            s = len(w.cells)
+            w.fill(0x4E, p['gap3'])
+            w.mark('gap3', rec, s)
+            continue
         s = len(w.cells)
         w.fill(0x4E, p['gap2'])
         if rec in (p.get('odd_phase') or ()):
